@@ -160,6 +160,61 @@ def _print_one(args):
             "walks": len(walks), "steps": covered, "wall": r.wall, "facts": facts, "cmd": r.cmd}
 
 
+LISTEN_INV = "INVARIANTS LTypeOK CreditOnlyOpenLocal ExtMatches CodeTopAllowed TiersAgree AdvertisedOnlyForListen"
+
+
+def _listen_one(args):
+    """spec/C17_Listen.tla: the listen set is a variable (Unlisten / Listen between reports); exhaustive check,
+    every transition printed and replayed like the base instances (kind "print" for the accounting)."""
+    ctx, th, beh_dir = args
+    os.environ["JAVA_TOOL_OPTIONS"] = JAVA_OPTS
+    tag = "listen_T%d" % th
+    cfg = tlc.subst_cfg("C17_Listen.cfg", {"Thresh": th, "Emit": "TRUE"}, replace=[
+        ("INIT LInit", "INIT LMCInit"), ("VIEW LView", "VIEW LView\nACTION_CONSTRAINT LEmitEdge")])
+    r = tlc.run(ctx, "C17_Listen", "gen_%s_edges.cfg" % tag, cfg_text=cfg, workers=1, timeout=900, heap=HEAP, name="ed" + tag)
+    if not r.ok:
+        raise MachineryError("design-level failure in C17 %s: %s violated\n%s" % (tag, r.violated, r.out[-2500:]))
+    insts = [o for t, o in r.prints if t == "VFINST"]
+    g = graph.Graph(r.inits, r.edges)
+    if len(insts) != 1 or g.n_edges() == 0 or g.n_states() != r.distinct:
+        raise MachineryError("C17 %s: printed graph has %d states / %d edges, TLC found %d states"
+                             % (tag, g.n_states(), g.n_edges(), r.distinct))
+    facts = {"report_refused_not_listening_now": 0, "unlisten_with_credits": 0, "relisten_with_credits": 0,
+             "credit_replaced_refused_while_unlistened": 0, "eligible_for_unlistened_address": 0}
+    localOf = insts[0]["localOf"]
+    for sk, op, tk in g.edges:
+        st = g.states[sk]
+        held = {localOf[c] for c, o in st["obs"].items() if o != "none"}
+        if op["name"] == "observe" and localOf[op["c"]] in insts[0]["locals"] and localOf[op["c"]] not in st["lis"] \
+                and op["o"] in insts[0]["addrs"] and st["open"][op["c"]]:
+            facts["report_refused_not_listening_now"] += 1
+            facts["credit_replaced_refused_while_unlistened"] += 1 if st["obs"][op["c"]] not in ("none", op["o"]) else 0
+        if op["name"] == "unlisten" and op["l"] in held:
+            facts["unlisten_with_credits"] += 1
+        if op["name"] == "listen" and op["l"] in held:
+            facts["relisten_with_credits"] += 1
+        for l, e in (op.get("exp") or {}).items():
+            if l not in op["lis"] and e["k"] > 0:
+                facts["eligible_for_unlistened_address"] += 1
+    walks = _covering_walks(g, ctx.seed, 40)
+    graph.write_behaviours(os.path.join(beh_dir, tag + ".jsonl"), walks,
+                           {"inst": insts[0], "MaxClosed": 9, "edges": g.n_edges(), "states": g.n_states()})
+    return {"tag": tag, "distinct": r.distinct, "generated": r.generated, "edges": g.n_edges(), "walks": len(walks),
+            "steps": sum(len(w["steps"]) for w in walks), "wall": r.wall, "facts": facts, "cmd": r.cmd}
+
+
+def _listen_guard(args):
+    """A credit held for an address the host stopped listening on must be reachable (the named deviation)."""
+    (ctx,) = args
+    os.environ["JAVA_TOOL_OPTIONS"] = JAVA_OPTS
+    cfg = tlc.subst_cfg("C17_Listen.cfg", {"Thresh": 1}, replace=[(LISTEN_INV, "INVARIANTS ReachEligibleUnlistened"),
+                                                                  ("PROPERTIES CreditOnlyWhileListening NeverCountL ListenChangeKeepsCredits Withdrawn", "")])
+    r = tlc.run(ctx, "C17_Listen", "gen_listen_guard.cfg", cfg_text=cfg, workers=1, timeout=300, heap=HEAP, name="glisten")
+    if r.ok or r.violated != "ReachEligibleUnlistened":
+        raise MachineryError("vacuity guard: C17_Listen never holds an eligible address for an un-listened local address")
+    return {"tag": "listen_guard"}
+
+
 def _mc_one(args):
     ctx, (inst, th, mc) = args
     os.environ["JAVA_TOOL_OPTIONS"] = JAVA_OPTS
@@ -298,7 +353,8 @@ def _job(a):
     kind, rest = a[0], a[1:]
     return kind, {"print": _print_one, "mc": _mc_one, "guard": _guard_one, "race": _race_one,
                   "raceguard": _race_guard, "async": _async_print, "asyncmc": _async_mc,
-                  "asyncguard": _async_guard}[kind](rest)
+                  "asyncguard": _async_guard,
+                  "listen": _listen_one, "listenguard": _listen_guard}[kind](rest)
 
 
 def run(ctx):
@@ -316,12 +372,13 @@ def run(ctx):
     jobs += [("async", ctx, acap, beh_dir), ("asyncmc", ctx, acap)]
     # the two base-module guards duplicate graph-side facts (same_group_twice, truncation): thorough tier only
     jobs += [("guard", ctx, g) for g in (GUARDS if ctx.tier == "thorough" else [])]
-    jobs += [("raceguard", ctx), ("asyncguard", ctx)]
+    jobs += [("listen", ctx, th, beh_dir) for th in ((1, 2) if ctx.tier == "thorough" else (2,))]
+    jobs += [("raceguard", ctx), ("asyncguard", ctx), ("listenguard", ctx)]
     # at most 4 TLC worker threads at a time: every run uses one worker
     with cf.ProcessPoolExecutor(max_workers=4) as ex:
         results = list(ex.map(_job, jobs))
     log("C17: TLC + walks done at %.1fs" % ctx.wall())
-    prints = [r for k, r in results if k == "print"]
+    prints = [r for k, r in results if k in ("print", "listen")]
     mcs = [r for k, r in results if k == "mc"]
     races = [r for k, r in results if k == "race"]
     if not all(r["late_records"] for r in races):
@@ -350,6 +407,8 @@ def run(ctx):
             raise MachineryError("no walk was replayed at the production threshold")
         if not extra.get("race_composites_fired_inside_the_call") or not extra.get("race_quiescent_comparisons"):
             raise MachineryError("the interference replay never fired inside a maybeRecordObservation call")
+        if not extra.get("listen_set_changes") or not extra.get("reports_while_local_address_not_listened"):
+            raise MachineryError("the replay never changed the listen set / never reported on an un-listened address")
         a_steps = sum(r["steps"] for k, r in results if k == "async")
         if (extra.get("async_steps") or 0) < a_steps or not extra.get("async_bursts_drained") \
                 or not extra.get("async_events_dropped_queue_full"):
@@ -370,6 +429,8 @@ def run(ctx):
         default_threshold_walks=extra.get("default_threshold_walks"),
         default_threshold_steps=extra.get("default_threshold_steps"),
         default_ActivationThresh=extra.get("default_ActivationThresh"),
+        listen_set_changes_replayed=extra.get("listen_set_changes"),
+        reports_replayed_while_local_address_not_listened=extra.get("reports_while_local_address_not_listened"),
         steps_replayed_under_other_address_forms=extra.get("other_forms_steps", 0),
         race={"instances": {r["tag"]: {k: r[k] for k in ("distinct", "generated", "edges", "walks", "wall", "late_records")}
                             for r in races},
@@ -396,7 +457,9 @@ def run(ctx):
         "bounded universes (<=7 connections, <=5 observer groups, <=4 observed addresses, thresholds 1..3); the production "
         "threshold is exercised through the scale map (one model observer group = ActivationThresh/Thresh distinct real "
         "IPs or /56s), not exhaustively",
-        "the listen-address set is fixed during a behaviour; Observe/CloseConn are the synchronous bodies "
+        "the listen-address set is fixed during a behaviour of the base/race/async models and a variable (Unlisten/Listen "
+        "between reports, never during one) in C17_Listen.tla, whose instance is replayed with a listenAddrs() callback "
+        "that follows the model; Observe/CloseConn are the synchronous bodies "
         "(maybeRecordObservation, removeConn) of the worker goroutine and of the Disconnected notification in the main "
         "model; the event-bus hand-off, the bounded worker queue (drop when full) and the worker loop are modelled in "
         "C17_Async.tla and replayed on a started Manager (real event bus, synctest) with observedAddrManagerWorkerChannelSize "
@@ -438,9 +501,11 @@ MANIFEST = {
             "ActivationThresh = model threshold, and a share of the walks at the production threshold through a scale "
             "map, so for these universes the decision is complete up to the projection.",
     "note": "Trusted: TLC, the harness's concretisation map, in-package reads of externalAddrs/connObservedTWAddrs (L2 "
-            "only). Bounded universes; listen addresses fixed; the asynchronous hand-off (event bus, worker queue that may "
+            "only). Bounded universes; listen addresses change only in the C17_Listen instance; the asynchronous hand-off (event bus, worker queue that may "
             "drop observations) is not modelled. Tie order and Addrs(1) are L2 only.",
     "engines": [{"name": "C17am_AddrsManager", "path": "spec/C17am_AddrsManager.tla", "serves_properties": ["C17"], "kind_free_text": "extension engine (checks/C17am.py, run as a part of C17): TLA+ spec of the basic host's address manager (inputs, the background loop's select, non-atomic updates, reachability tracker, Start/Close; 8 invariants, 5 action properties, liveness); TLC exhaustive; every printed transition replayed on the real addrsManager, event bus, peerstore and tracker under synctest with gates at the select and at every stub read"},
+                {"name": "C17_Listen", "path": "spec/C17_Listen.tla", "serves_properties": ["C17"],
+                 "kind_free_text": "TLA+ extension of C17_ObservedAddrs with the listen set as a variable (Unlisten/Listen); TLC exhaustive + full-transition replay with a listenAddrs() callback that follows the model"},
                 {"name": "C17_ObservedAddrs", "path": "spec/C17_ObservedAddrs.tla", "serves_properties": ["C17"],
                  "kind_free_text": "TLA+ spec + TLC exhaustive + full-transition replay"}],
 }
